@@ -91,6 +91,9 @@ func buildTar(ents []tarEnt) (blob []byte, raw, pax int, ok bool) {
 		if isReg(e.Type) {
 			size = len(tarBody)
 		}
+		if cut := strings.SplitN(e.Name, "\x00", 2)[0]; e.Type == 0 && strings.HasSuffix(cut, "/") {
+			size = 0 // archive/tar reads a V7 regular entry with a trailing slash as a (header-only) directory
+		}
 		if len(e.Name) <= 100 && len(e.Link) <= 100 {
 			out.Write(rawHeader(e.Name, e.Type, e.Link, size))
 			if size > 0 {
@@ -108,6 +111,11 @@ func buildTar(ents []tarEnt) (blob []byte, raw, pax int, ok bool) {
 			typ = tar.TypeReg
 		}
 		err := tw.WriteHeader(&tar.Header{Name: e.Name, Typeflag: typ, Linkname: e.Link, Mode: 0o600, Size: int64(size), Format: tar.FormatPAX})
+		if err != nil {
+			one.Reset()
+			tw = tar.NewWriter(&one)
+			err = tw.WriteHeader(&tar.Header{Name: e.Name, Typeflag: typ, Linkname: e.Link, Mode: 0o600, Size: int64(size), Format: tar.FormatGNU})
+		}
 		if err != nil {
 			return nil, raw, pax, false
 		}
@@ -156,7 +164,7 @@ func layoutNames() []string {
 		"../a", "../S", "../../a", "../../S", "../../../a", "../../../../a", "a/../../a", "a/a/../../../a", "./../a", "a/../..", "../.", "./..",
 		"../<RB>x/a", "../<RB>x", "../<RB>x/new", "../<RB>", "../<RB>/", "../<RB>/..", "../<RB>/../a",
 		"<TOP>/a", "<TOP>/outer/a", "<TOP>/new", "/<TOP>/a", "//<TOP>/outer/S", "/../../a", "/..", "/",
-		up(30) + "a", up(30) + "<TOPREL>/a", up(30) + "<TOPREL>/outer/S", up(30) + "<TOPREL>/new", "a/" + up(31) + "<TOPREL>/S",
+		up(30) + "<TOPREL>/a", up(30) + "<TOPREL>/outer/S", up(30) + "<TOPREL>/new", "a/" + up(31) + "<TOPREL>/S",
 		"..\\a", "..\\..\\a", "a\x00/../../a", "../a\x00b", " ../a", "../ a", ".. /a", "\t../a",
 	}
 }
@@ -279,7 +287,7 @@ func (e *env) tarCheck(sb *sandbox, order int64, tmpl []tarEnt) {
 			e.add("tar_other_error", 1)
 		}
 	}
-	after := snapshot(sb.top)
+	after := snapshot(sb.guard)
 	outside, inside := diffOutside(sb.baseline, after, root)
 	for p, v := range after {
 		if strictlyInside(root, p) && strings.HasPrefix(v, "file ") {
